@@ -510,6 +510,34 @@ def check(ctx, rep):
     _sso(ctx, rep, "R04j", _Eff4(prog, ctx.resolver), entry_funcs, sequential=True)
     if len(rep.obligations) == n_before_:
         rep.ok("R04j", f"no module- or class-level state is written while an item is described [{len(entry_funcs)} functions]", "pygopherd/handlers", key="R04j|none")
+    rep.rule("R04k", "document bytes reach the client through the response file object only (its write()): nothing takes the descriptor below it "
+             "(fileno(), os.sendfile, os.write, socket.send*) - under TLS that descriptor is the raw socket and plain text would be written into "
+             "the encrypted stream", floor=1)
+    raw_sites = []
+    n_writers = 0
+    for f_ in prog.all_functions():
+        if not (f_.module.name.startswith("pygopherd.handlers") or f_.module.name.startswith("pygopherd.protocols")):
+            continue
+        if any(p_ in ("wfile", "fd") for p_ in f_.params) or f_.name in ("write", "copyto", "handlerwrite", "writedir"):
+            n_writers += 1
+        for c_ in ast.walk(f_.node):
+            if not isinstance(c_, ast.Call):
+                continue
+            d_ = dotted(c_.func) or ""
+            if d_ in ("os.sendfile", "os.splice", "os.copy_file_range", "os.write", "os.writev") or d_.split(".")[-1] in ("sendfile",):
+                raw_sites.append((f_, c_))
+            elif isinstance(c_.func, ast.Attribute) and c_.func.attr in ("fileno", "detach") and any(
+                    x in norm(c_.func.value) for x in ("wfile", "self.request", "connection")) or (
+                    isinstance(c_.func, ast.Attribute) and c_.func.attr == "fileno" and isinstance(c_.func.value, ast.Name) and c_.func.value.id in ("fd", "out", "outfile")
+                    and c_.func.value.id in f_.params):
+                raw_sites.append((f_, c_))
+    for f_, c_ in raw_sites:
+        rep.add("R04k", f"{f_.qualname}: {norm(c_)[:60]}", False, ctx.where(f_, c_),
+                "the descriptor under the response file is used directly: on a TLS connection that is the raw TCP socket, so what is written there "
+                "is not what the client's TLS layer decrypts (and the length announced before it is followed by no readable body)",
+                key=f"R04k|{f_.qualname}|{norm(c_.func)}")
+    if not raw_sites:
+        rep.ok("R04k", f"no writer reaches below the response file object [{n_writers} writer functions]", "pygopherd/handlers", "", key="R04k|none")
     rep.rule("R04a", "copy loop: 'rb' open in a with; each chunk written once unchanged; loop ends only on an empty read", floor=1)
     rep.rule("R04b", "Gopher+ length: transforming handlers leave size unset; generated menus use the unknown-length marker", floor=5)
     rep.rule("R04c", "HTTP HEAD: no body-producing call reachable; header writes independent of the method", floor=1)
